@@ -565,7 +565,13 @@ func parseEMLAttachmentEmbed(contentDisposition []string, multiPart *multipart.P
 	cdType, optional := parseMultiPartHeader(contentDisposition[0])
 	filename := "generic.attachment"
 	if name, ok := optional["filename"]; ok {
-		filename = name[1 : len(name)-1]
+		switch {
+		case len(name) >= 2 && name[0] == '"' && name[len(name)-1] == '"':
+			filename = name[1 : len(name)-1]
+		case name != "":
+			// The filename parameter may also be an unquoted token
+			filename = name
+		}
 	}
 
 	var dataReader io.Reader
